@@ -65,7 +65,7 @@ func cmdCheck(argv []string) int {
 	if *tier == "thorough" {
 		timeout = 120
 	}
-	outDir = filepath.Join("/verif/out", *prop)
+	outDir = filepath.Join(outRoot, *prop)
 	os.RemoveAll(outDir)
 	os.MkdirAll(outDir, 0o755)
 
@@ -78,9 +78,9 @@ func cmdCheck(argv []string) int {
 			fmt.Fprintln(os.Stderr, "load error:", merr)
 			return 2
 		}
-		l, err = loadModule("/repo/minter-connector", []string{"./command/...", "./context/...", "./minter/..."}, nil, mf)
+		l, err = loadModule(repoRoot+"/minter-connector", []string{"./command/...", "./context/...", "./minter/..."}, nil, mf)
 	} else {
-		l, err = loadModule("/repo/module", []string{"./x/mhub2/...", "./x/oracle/..."}, nil, "")
+		l, err = loadModule(repoRoot+"/module", []string{"./x/mhub2/...", "./x/oracle/..."}, nil, "")
 	}
 	if err != nil {
 		fmt.Fprintln(os.Stderr, "load error:", err)
@@ -273,23 +273,23 @@ func cmdCheck(argv []string) int {
 
 // connectorModfile writes a copy of minter-connector/go.mod whose replace directive points at /repo/module.
 func connectorModfile() (string, error) {
-	dir := "/verif/out/connector-mod"
+	dir := outRoot + "/connector-mod"
 	os.MkdirAll(dir, 0o755)
-	data, err := os.ReadFile("/repo/minter-connector/go.mod")
+	data, err := os.ReadFile(repoRoot + "/minter-connector/go.mod")
 	if err != nil {
 		return "", err
 	}
 	var out []string
 	for _, ln := range strings.Split(string(data), "\n") {
 		if strings.HasPrefix(strings.TrimSpace(ln), "replace github.com/MinterTeam/mhub2/module") {
-			ln = "replace github.com/MinterTeam/mhub2/module => /repo/module"
+			ln = "replace github.com/MinterTeam/mhub2/module => " + repoRoot + "/module"
 		}
 		out = append(out, ln)
 	}
 	if err := os.WriteFile(filepath.Join(dir, "go.mod"), []byte(strings.Join(out, "\n")), 0o644); err != nil {
 		return "", err
 	}
-	sum, err := os.ReadFile("/repo/minter-connector/go.sum")
+	sum, err := os.ReadFile(repoRoot + "/minter-connector/go.sum")
 	if err != nil {
 		return "", err
 	}
@@ -309,7 +309,7 @@ func specShort(full string) string {
 
 // writeReplay writes the replay file of a failed obligation: the obligation, solver output, model and SMT script.
 func writeReplay(prop string, rep *OblReport, o *Obligation, rr *replayResult) string {
-	dir := filepath.Join("/verif/out", prop, "replay")
+	dir := filepath.Join(outRoot, prop, "replay")
 	os.MkdirAll(dir, 0o755)
 	safe := strings.NewReplacer("/", "_", "(", "", ")", "", "*", "", "$", "_", "@", "_", ":", "_", "~", "-", " ", "_").Replace(rep.Name)
 	if len(safe) > 160 {
